@@ -42,7 +42,8 @@ PROPS["C11"] = coop("TestProp", "rapid generates adapter kind x program x schedu
 PROPS["C12"] = coop("TestProp", "two generated parts: (a) fidelity: payload type (11 Go types) x values (unicode/escapes/64-bit extremes/NaN/unencodable) x IDs x queue mode pushed through a recording adapter and compared with the harness's own JSON round trip; (b) bad entries (5 kinds) at generated positions among valid stored entries, concurrency 1, generated schedule; non-trivial = a value/ID with non-ASCII/escape/extreme content or a rejected (unencodable) value, or >=1 bad entry among >=2 valid ones; distinct = distinct case", quick=(4, 4000), thorough=(16, 30000))
 
 PROPS["C04"] = coop("TestProp", "two parts. (a) queues: rapid-generated enqueue/dequeue/purge/close/values sequences with bursts across the 1024/1536/2304/... segment boundaries (thorough: past the 100Ki segment cap) and arbitrary int priorities, applied to internal/queues and to a slice / stable-sorted model (differential); (b) worker: generated programs x schedules with concurrency 1 (exact order) and n (prefix at quiescent points); distinct = distinct operation sequence / event-history hash; non-trivial = a queue longer than one segment, a tie between equal priorities, a purge followed by reuse, or >=3 jobs through a worker",
-                    extra_parts=[seq("TestC04Queues", quick=(4, 600), thorough=(16, 5000), fuzz={"targets": ["FuzzC04Queues"], "time": "60s", "timeout": 400})])
+                    quick=(4, 4000), thorough=(16, 15000),
+                    extra_parts=[seq("TestC04Queues", quick=(4, 2500), thorough=(16, 20000), fuzz={"targets": ["FuzzC04Queues"], "time": "60s", "timeout": 400})])
 PROPS["C04"]["assumptions"] = PROPS["C04"]["assumptions"] + ["queue part: reference models (slice, stable sort by (priority, arrival)) are correct"]
 
 PROPS["C19"] = {"engine": "race", "pkg": "vrace", "test": "TestC19", "replay_test": "TestReplay",
